@@ -341,6 +341,13 @@ func init() {
 		}
 		return c
 	}
+	shims["verifOnSend"] = func(in *Interp, fr *frame, args []value) value {
+		in.path.onSend = args[0]
+		if isNilFunc(args[0]) {
+			in.path.onSend = nil
+		}
+		return nil
+	}
 	shims["verifEventCount"] = func(in *Interp, fr *frame, args []value) value {
 		return in.intConst(int64(len(in.path.events)))
 	}
